@@ -231,7 +231,8 @@ fn bdd_query(b: &'static RobddBuilder<'static, AllIteTable<BPtr>>, p: BPtr, q: i
             }
         }
         Q_SMOOTH => {
-            let r = b.smooth(p, n);
+            // smooth over the first 1..=n variables of the order (the argument is the caller's choice)
+            let r = b.smooth(p, 1 + a1.unsigned_abs() as usize % n);
             (vec![wb::sig(r, &mut BTreeMap::new())], None)
         }
         Q_CONDITION => {
@@ -312,7 +313,7 @@ enum BRecipe {
     /// the canonical diagram of a function: rebuilt from its truth table
     Tt(TT),
     /// smooth(inner, n): not a reduced diagram, cannot be rebuilt from a truth table
-    Smooth(Box<BRecipe>),
+    Smooth(Box<BRecipe>, usize),
     Child(Box<BRecipe>, bool),
     Neg(Box<BRecipe>),
 }
@@ -320,9 +321,9 @@ enum BRecipe {
 fn build_fresh(b: &'static RobddBuilder<'static, AllIteTable<BPtr>>, r: &BRecipe, order: &[usize], n: usize) -> BPtr {
     match r {
         BRecipe::Tt(t) => rebuild_bdd(b, *t, order, &mut BTreeMap::new()),
-        BRecipe::Smooth(x) => {
+        BRecipe::Smooth(x, k) => {
             let p = build_fresh(b, x, order, n);
-            b.smooth(p, n)
+            b.smooth(p, *k)
         }
         BRecipe::Child(x, hi) => {
             let p = build_fresh(b, x, order, n);
@@ -447,12 +448,13 @@ fn run_bdd(plan: &Plan, ctx: &mut Ctx) -> R {
                 })?;
                 if q == Q_SMOOTH {
                     // the smoothed diagram joins the pool: later queries run on it and on its sub-diagrams
-                    let r = b.smooth(p, n);
+                    let k = 1 + a1.unsigned_abs() as usize % n;
+                    let r = b.smooth(p, k);
                     scratch_monitor_bdd(ctx, b, "smooth")?;
                     let t = wb::walk_raw(r, &mut BTreeMap::new());
                     pool.push(r);
                     tts.push(t);
-                    recipes.push(BRecipe::Smooth(Box::new(recipes[h].clone())));
+                    recipes.push(BRecipe::Smooth(Box::new(recipes[h].clone()), k));
                 }
                 if let (Some(d), Some(fd)) = (diag, fdiag) {
                     let (t1, t2) = (wb::walk_raw(d, &mut BTreeMap::new()), wb::walk_raw(fd, &mut BTreeMap::new()));
